@@ -14,10 +14,10 @@ def build(tier, seed):
     # O1: two and three files
     obs.append(Ob(
         oid="O1.files2", sig="n0: int, m0: bool, n1: int, m1: bool, col1: bool, c: int, dup: bool",
-        pre=["0 <= n0 <= 3 and 0 <= n1 <= 3", "0 <= c <= 4"], header=HDRA, timeout=T,
+        pre=["0 <= n0 <= 3 and 0 <= n1 <= 3", "0 <= c <= 6"], header=HDRA, timeout=T,
         body=r'''
     f0, t0 = make_file(0, concrete_int(n0, 0, 3), m0, False, [0, 3])
-    f1, t1 = make_file(1, concrete_int(n1, 0, 3), m1, col1, [concrete_int(c, 0, 4), 1])
+    f1, t1 = make_file(1, concrete_int(n1, 0, 3), m1, col1, [concrete_int(c, 0, 6), 1])
     files = {"f0.rtf": f0, "f1.rtf": f1}
     order = ["f0.rtf", "f0.rtf" if dup else "f1.rtf"]
     text, err, fs = run_assemble(files, order)
@@ -28,18 +28,18 @@ def build(tier, seed):
 ''',
         funcs=F_ASM, stubs=STUBS,
         bounds="2 inputs: each with 1..3 font-table lines or the font table the code under test generates, and table- or figure-style preamble; the later one with/without colour "
-               "table and a symbolic body-unit class (table row, paragraph, blank+text, two-line picture group, page settings); "
+               "table and a symbolic body-unit class (table row, paragraph, blank+text, two-line picture group, page settings, page footer line, page header line); "
                "optionally the same file listed twice",
         what="the output is the first file without its final brace, then \\page and the later file's content after its font table, "
              "then one closing brace: one top-level group closed only at the end, every body once, in argument order"))
     for dupv in (0, 1, 2):
       obs.append(Ob(
         oid="O1.files3.dup%d" % dupv, sig="n1: int, m1: bool, col1: bool, n2: int, m2: bool, col2: bool, c: int",
-        pre=["0 <= n1 <= 3 and 0 <= n2 <= 3", "0 <= c <= 4"], header=HDRA, timeout=T,
+        pre=["0 <= n1 <= 3 and 0 <= n2 <= 3", "0 <= c <= 6"], header=HDRA, timeout=T,
         body=("\n    dup = %d" % dupv) + r'''
     f0, t0 = make_file(0, 2, False, False, [0, 1])
     f1, t1 = make_file(1, concrete_int(n1, 0, 3), m1, col1, [3, 0])
-    f2, t2 = make_file(2, concrete_int(n2, 0, 3), m2, col2, [concrete_int(c, 0, 4)])
+    f2, t2 = make_file(2, concrete_int(n2, 0, 3), m2, col2, [concrete_int(c, 0, 6)])
     files = {"f0.rtf": f0, "f1.rtf": f1, "f2.rtf": f2}
     tails = {"f0.rtf": t0, "f1.rtf": t1, "f2.rtf": t2}
     order = ["f0.rtf", "f1.rtf", "f2.rtf"]
@@ -61,9 +61,9 @@ def build(tier, seed):
     for modev, mname in ((0, "single"), (1, "empty"), (2, "missing")):
       obs.append(Ob(
         oid="O2." + mname, sig="n: int, m: bool, c0: int, col: bool, miss: int",
-        pre=["0 <= n <= 3", "0 <= c0 <= 4", "0 <= miss <= 2"], header=HDRA, timeout=T,
+        pre=["0 <= n <= 3", "0 <= c0 <= 6", "0 <= miss <= 2"], header=HDRA, timeout=T,
         body=("\n    mode, c1 = %d, 1" % modev) + r'''
-    lines, _t = make_file(0, concrete_int(n, 0, 3), m, col, [concrete_int(c0, 0, 4), concrete_int(c1, 0, 4)])
+    lines, _t = make_file(0, concrete_int(n, 0, 3), m, col, [concrete_int(c0, 0, 6), concrete_int(c1, 0, 4)])
     other, _ = make_file(1, 2, False, False, [1])
     files = {"a.rtf": lines, "b.rtf": other, "c.rtf": other}
     if mode == 0:
@@ -84,17 +84,17 @@ def build(tier, seed):
              "FileNotFoundError before anything is opened for writing"))
     # O4: every call reads the files as they are at that time
     obs.append(Ob(
-        oid="O4.reread", sig="n1: int, m1: bool, c: int, c2: int, which: int", pre=["0 <= n1 <= 3", "0 <= c <= 4 and 0 <= c2 <= 4", "0 <= which <= 1"],
+        oid="O4.reread", sig="n1: int, m1: bool, c: int, c2: int, which: int", pre=["0 <= n1 <= 3", "0 <= c <= 6 and 0 <= c2 <= 6", "0 <= which <= 1"],
         header=HDRA, timeout=T,
         body=r"""
     f0, t0 = make_file(0, 2, False, False, [0])
-    f1, t1 = make_file(1, concrete_int(n1, 0, 3), m1, False, [concrete_int(c, 0, 4)])
+    f1, t1 = make_file(1, concrete_int(n1, 0, 3), m1, False, [concrete_int(c, 0, 6)])
     text, err, fs = run_assemble({"f0.rtf": f0, "f1.rtf": f1}, ["f0.rtf", "f1.rtf"])
     if err is not None or text != "".join(f0[:-1]) + "\\page\n" + t1 + "}":
         return False
     # one of the inputs is regenerated with other content, then the same call is made again
     g0, u0 = make_file(2, 2, False, False, [1, 0]) if which == 0 else (f0, t0)
-    g1, u1 = make_file(3, concrete_int(n1, 0, 3), m1, False, [concrete_int(c2, 0, 4), 1]) if which == 1 else (f1, t1)
+    g1, u1 = make_file(3, concrete_int(n1, 0, 3), m1, False, [concrete_int(c2, 0, 6), 1]) if which == 1 else (f1, t1)
     text2, err2, fs2 = run_assemble({"f0.rtf": g0, "f1.rtf": g1}, ["f0.rtf", "f1.rtf"])
     return err2 is None and text2 == "".join(g0[:-1]) + "\\page\n" + u1 + "}"
 """,
@@ -102,6 +102,27 @@ def build(tier, seed):
         bounds="two calls in one process on the same two paths; between them the first or the second file (symbolic) is replaced by "
                "another member of grammar G",
         what="the second call assembles the files' current content: nothing read by an earlier call is reused"))
+    # O5: inputs larger than any read buffer
+    obs.append(Ob(
+        oid="O5.large_input", sig="pos: int, n1: int, m1: bool", pre=["0 <= pos <= 2", "0 <= n1 <= 3"], header=HDRA, timeout=T,
+        body=r"""
+    big, tbig = make_file(9, concrete_int(n1, 0, 3), m1, False, [0, 7, 1])       # > 64 KiB
+    small, tsmall = make_file(1, 2, False, False, [0])
+    other, tother = make_file(2, 1, False, False, [1])
+    p = concrete_int(pos, 0, 2)
+    files = {"a.rtf": small, "b.rtf": other, "big.rtf": big}
+    if p == 0:
+        text, err, fs = run_assemble(files, ["big.rtf"])
+        return err is None and text == "".join(big)
+    order = ["a.rtf", "big.rtf", "b.rtf"] if p == 1 else ["a.rtf", "b.rtf", "big.rtf"]
+    tails = {"a.rtf": tsmall, "b.rtf": tother, "big.rtf": tbig}
+    text, err, fs = run_assemble(files, order)
+    exp = "".join(small[:-1]) + "\\page\n" + tails[order[1]] + "\\page\n" + tails[order[2]] + "}"
+    return err is None and text == exp and depth_profile_ok(text)
+""",
+        funcs=F_ASM, stubs=STUBS + ["readlines(hint) of the in-memory files follows io semantics (stops once the hint is reached)"],
+        bounds="one input of about 73 KiB (a picture group of 900 payload lines) alone, in the middle or last among three",
+        what="an input is read completely whatever its size: nothing after the first 64 KiB (or any other buffer size) is lost"))
     obs.append(Ob(oid="O3.grammar", kind="py", target="vf.api_c17:grammar", kwargs={"tier": tier}, timeout=T,
                   funcs=["rtflite.encode:RTFDocument.rtf_encode"],
                   bounds="real rtf_encode() outputs: table (1 and 3 pages), landscape, page header/footer, coloured, multi-section, figure",
